@@ -1753,6 +1753,10 @@ class ConfigList(UserList):
 
         if not isinstance(text_list, Sequence):
             raise ValueError
+        if not isinstance(text_list, list):
+            # a tuple of lines is a valid config; the typed-model factory
+            # (config_line_factory(all_lines=...)) insists on a list
+            text_list = list(text_list)
 
         if self.debug >= 1:
             logger.info("    ConfigList().bootstrap() was called.")
